@@ -486,7 +486,7 @@ impl Gen for SafeLong {
         } else {
             ir::gen_safelong(t)
         };
-        SafeLong::new(v).expect("safelong in range")
+        SafeLong::new(v).unwrap_or_else(|e| panic!("{}: SafeLong::new({}) failed: {}", crate::runner::VALID_VALUE_REFUSED, v, e))
     }
 }
 
@@ -526,7 +526,7 @@ impl Gen for ResourceIdentifier {
     fn gen(t: &mut Tape, c: &GenCx<'_>) -> ResourceIdentifier {
         let canary = if c.tainted() { Some(c.k.alpha.as_str()) } else { None };
         let s = ir::gen_rid_string(t, canary);
-        ResourceIdentifier::new(&s).unwrap_or_else(|e| panic!("generated rid {:?} rejected: {}", s, e))
+        ResourceIdentifier::new(&s).unwrap_or_else(|e| panic!("{}: ResourceIdentifier::new({:?}) failed: {}", crate::runner::VALID_VALUE_REFUSED, s, e))
     }
 }
 
@@ -534,7 +534,7 @@ impl Gen for BearerToken {
     fn gen(t: &mut Tape, c: &GenCx<'_>) -> BearerToken {
         let canary = if c.k.canaries { Some(c.k.alpha.as_str()) } else { None };
         let s = ir::gen_token_string(t, canary);
-        BearerToken::new(&s).unwrap_or_else(|e| panic!("generated token {:?} rejected: {}", s, e))
+        BearerToken::new(&s).unwrap_or_else(|e| panic!("{}: BearerToken::new({:?}) failed: {}", crate::runner::VALID_VALUE_REFUSED, s, e))
     }
 }
 
@@ -605,7 +605,7 @@ pub fn gen_via_doc<T: serde::de::DeserializeOwned>(name: &str, t: &mut Tape, c: 
     let text = doc.to_string();
     match conjure_serde::json::client_from_str::<T>(&text) {
         Ok(v) => v,
-        Err(e) => panic!("generated document for {} rejected by client deserializer: {} :: {}", name, e, text),
+        Err(e) => panic!("{}: the client deserializer refused a valid document of {}: {} :: {}", crate::runner::VALID_VALUE_REFUSED, name, e, text),
     }
 }
 
